@@ -143,12 +143,14 @@ def finish(ctx, seed=0, verbose=True):
             "KNOWN-FINDING: property=%s %s %s%s"
             % (ctx.prop, f.key, f.message, (" [%s]" % f.site) if f.site else "")
         )
+    no_write = bool(os.environ.get("VERIF_NO_EVIDENCE"))
     replay_dir = os.path.join(VERIF, "replays", ctx.prop)
     for f in violations:
-        os.makedirs(replay_dir, exist_ok=True)
         path = os.path.join(replay_dir, slug(f.key.split("/", 1)[1]) + ".json")
-        with open(path, "w") as fh:
-            json.dump(f.as_dict(), fh, indent=1, sort_keys=True, default=str)
+        if not no_write:
+            os.makedirs(replay_dir, exist_ok=True)
+            with open(path, "w") as fh:
+                json.dump(f.as_dict(), fh, indent=1, sort_keys=True, default=str)
         out.append("finding %s: %s%s%s" % (
             f.key, f.message, (" [%s]" % f.site) if f.site else "",
             (" witness=%r" % (f.witness,)) if f.witness is not None else ""))
@@ -188,9 +190,10 @@ def finish(ctx, seed=0, verbose=True):
         "wall_s": round(wall, 3),
         "violations": len(violations),
     }
-    os.makedirs(os.path.join(VERIF, "evidence"), exist_ok=True)
-    with open(os.path.join(VERIF, "evidence", ctx.prop + ".json"), "w") as fh:
-        json.dump(ev, fh, indent=1, sort_keys=True, default=str)
+    if not no_write:
+        os.makedirs(os.path.join(VERIF, "evidence"), exist_ok=True)
+        with open(os.path.join(VERIF, "evidence", ctx.prop + ".json"), "w") as fh:
+            json.dump(ev, fh, indent=1, sort_keys=True, default=str)
     if verbose:
         print(
             "%s static analysis [%s]: %d obligations, %d discharged, %d known, %d violations; %d functions, %d regexes, %d tables; %.2fs"
